@@ -216,11 +216,11 @@ def gen_tree(rng, depth, d0, raw_ok=False):
     if o in ("rep", "rrep"):
         return {"o": o, "c": gen_tree(rng, depth - 1, d0), "k": gen_count(rng, d0)}
     n = rng.choice([2, 2, 2, 3, 1, 4])
-    how = rng.choice(["static", "op", "rop"]) if n == 2 else "static"
+    how = rng.choice(["static", "op", "rop", "iop"]) if n == 2 else "static"
     cs = []
     for i in range(n):
         # with the operator forms one side may be a raw int / set; with the static forms any element may be raw
-        raw = (how == "static") or (how == "op" and i == 1) or (how == "rop" and i == 0)
+        raw = (how == "static") or (how in ("op", "iop") and i == 1) or (how == "rop" and i == 0)
         cs.append(gen_tree(rng, depth - 1, d0, raw_ok=raw))
     if how == "rop" and not cs[0].get("raw"):
         how = "op"
@@ -347,6 +347,16 @@ def corpus():
             for o in ("uni", "cat"):
                 t = {"o": o, "cs": [lf(a), lf(b)], "how": how, "raw": False}
                 out.append({"tree": t, "queries": [[2, ["mod", 64], False], [2, ["exp"], False], [2, ["len"], False], [2, ["mod", 96], False], [0, ["exp"], False], [1, ["exp"], False]]})
+    # augmented assignment must not change the aliased left operand
+    for o in ("cat", "uni"):
+        t = {"o": o, "how": "iop", "raw": False, "cs": [lf([8, 16, 24]), lf([32])]}
+        out.append({"tree": t, "queries": [[2, ["min"], False], [2, ["exp"], False], [0, ["min"], False], [0, ["max"], False], [0, ["exp"], False], [0, ["mod", 8], False]]})
+    # many distinct residues that lie in one coset of a subgroup (all odd, or all = 4 mod 8) and a multiset count in the
+    # millions: every further copy shifts the coset, so a shortcut that stops when the cardinality stops growing is wrong
+    # (cost: about 3 s each on the implementation side, deliberately above the random cases' budget)
+    for vs, k, d in [(list(range(1, 32, 2)), 10, 32), (list(range(4, 64, 8)), 22, 64), (list(range(1, 16, 2)), 2 ** 63 + 6, 16)]:
+        t = {"o": "rep", "c": lf(vs), "k": k, "raw": False}
+        out.append({"tree": t, "queries": [[1, ["mod", d], False], [1, ["mod", 2], False], [1, ["aligned", 2], False]]})
     big = {"o": "uni", "how": "op", "raw": False, "cs": [{"o": "rrep", "k": 2 ** 62, "c": lf([64])}, {"o": "rrep", "k": 2 ** 63, "c": lf([32])}]}
     out.append({"tree": big, "queries": [[4, ["aligned", 64], False], [4, ["mod", 64], False], [4, ["max"], False], [1, ["aligned", 64], False], [3, ["aligned", 64], False]]})
     return out
@@ -437,6 +447,13 @@ def _one_case(case, BitLengthSet, raw_value, answer):
                     how = n.get("how", "static")
                     if how == "static" or len(ops) != 2:
                         v = BitLengthSet.concatenate(ops) if o == "cat" else BitLengthSet.unite(ops)
+                    elif how == "iop" and isinstance(ops[0], BitLengthSet):
+                        # augmented assignment on an alias of the left operand: the operand itself must stay what it was
+                        v = ops[0]
+                        if o == "cat":
+                            v += ops[1]
+                        else:
+                            v |= ops[1]
                     else:  # "op": BitLengthSet on the left; "rop": raw on the left, BitLengthSet on the right
                         if not isinstance(ops[0], BitLengthSet) and not isinstance(ops[1], BitLengthSet):
                             ops[1] = BitLengthSet(ops[1])
